@@ -201,7 +201,8 @@ def _ctx_of_kwargs(kw):
 
 
 def position_table():
-    """(class, position, joined) -> ctx ; class -> (group-by alias reference used, order-by alias reference used)"""
+    """(class, position, joined) -> ctx ; class -> (GROUP BY / ORDER BY replace an element whose alias name is selected,
+    ... an element whose alias name is NOT selected)"""
     from pypika import Table, Order
     Probe = _probe_class()
     t, u = Table("t"), Table("u")
@@ -214,8 +215,8 @@ def position_table():
             if j:
                 q = q.join(u).on(Probe("on"))
             q = (q.select(Probe("select", SENT)).where(Probe("where"))
-                 .groupby(Probe("groupref", SENT), Probe("group", "zqOther")).having(Probe("having"))
-                 .orderby(Probe("orderref", SENT), Probe("order", "zqOther"), order=Order.desc))
+                 .groupby(Probe("groupref", SENT), Probe("groupother", "zqOther"), Probe("group")).having(Probe("having"))
+                 .orderby(Probe("orderref", SENT), Probe("orderother", "zqOther"), Probe("order"), order=Order.desc))
             str(q)
             got = {}
             for tag, kw in Probe.log:
@@ -224,14 +225,14 @@ def position_table():
                 if len(got.get(tag, [])) != 1:
                     raise RuntimeError("%s: probe at %s rendered %d times" % (py, tag, len(got.get(tag, []))))
                 ctxs[(cq, tag, j)] = _ctx_of_kwargs(got[tag][0])
-            gref, oref = "groupref" not in got, "orderref" not in got
+            flags = ("groupref" not in got, "orderref" not in got, "groupother" not in got, "orderother" not in got)
             if j is False:
-                refs[cq] = (gref, oref)
-            elif refs[cq] != (gref, oref):
+                refs[cq] = flags
+            elif refs[cq] != flags:
                 raise RuntimeError("%s: alias substitution depends on the presence of a join" % py)
-            for tag in ("groupref", "orderref"):
+            for tag in ("groupref", "orderref", "groupother", "orderother"):
                 if tag in got:
-                    base = "group" if tag == "groupref" else "order"
+                    base = "group" if tag.startswith("group") else "order"
                     if _ctx_of_kwargs(got[tag][0]) != ctxs[(cq, base, j)]:
                         raise RuntimeError("%s: %s position contexts differ between elements" % (py, base))
         Probe.log.clear()
@@ -276,10 +277,9 @@ def extract():
                     key = (cq, tag, not j)      # ON exists only with a join, VALUES only without: the other row is never used
                 out.append("  | %s, %s, %s => %s" % (cq, pq, B(j), tf.ctx_coq(ctxs[key])))
     out.append("  end.")
-    out.append("Definition x_group_ref (c : qclass) : bool := match c with %s end."
-               % " ".join("| %s => %s" % (cq, B(refs[cq][0])) for cq, _ in CLASSES))
-    out.append("Definition x_order_ref (c : qclass) : bool := match c with %s end."
-               % " ".join("| %s => %s" % (cq, B(refs[cq][1])) for cq, _ in CLASSES))
+    for ix, name in enumerate(("x_group_ref", "x_order_ref", "x_group_ref_unselected", "x_order_ref_unselected")):
+        out.append("Definition %s (c : qclass) : bool := match c with %s end."
+                   % (name, " ".join("| %s => %s" % (cq, B(refs[cq][ix])) for cq, _ in CLASSES)))
     return {"gen/C13Table.v": "\n".join(out) + "\n"}
 
 
